@@ -1,8 +1,12 @@
-// Minimal circom-2 wasm witness calculator driver (reference generator oracle).
+// Reference circom witness generator: drives rln.wasm (circom 2 wasm ABI) as a JSONL server.
+// usage: node refgen.js <rln.wasm>
+// request : {"id":n,"inputs":{name:[decimal strings]|decimal string,...},"want":"full"|"digest"}
+// response: {"id":n,"ok":true,"head":[first 8 entries],"digest":sha256 hex of all entries as 32-byte LE,"witness":[..] (want=full)}
+//           {"id":n,"ok":false,"error":"..."}  (assert failed / bad input)
 const fs = require('fs');
 const readline = require('readline');
+const crypto = require('crypto');
 const wasmPath = process.argv[2];
-const mode = process.argv[3] || 'full'; // full | head
 function fnv(str){ let h = 0xCBF29CE484222325n; for (let i=0;i<str.length;i++){ h ^= BigInt(str.charCodeAt(i)); h = (h * 0x100000001B3n) & 0xFFFFFFFFFFFFFFFFn; } return h; }
 (async () => {
   const code = fs.readFileSync(wasmPath);
@@ -20,7 +24,7 @@ function fnv(str){ let h = 0xCBF29CE484222325n; for (let i=0;i<str.length;i++){ 
   inst.exports.getRawPrime();
   let prime = 0n; for (let j=n32-1;j>=0;j--) prime = (prime << 32n) | BigInt(inst.exports.readSharedRWMemory(j) >>> 0);
   const wsize = inst.exports.getWitnessSize();
-  console.log(JSON.stringify({hello:true, n32, prime: prime.toString(), witness_size: wsize, input_size: inst.exports.getInputSize(), version:[inst.exports.getVersion(), inst.exports.getMinorVersion(), inst.exports.getPatchVersion()]}));
+  console.log(JSON.stringify({hello:true, n32, prime: prime.toString(), witness_size: wsize, input_size: inst.exports.getInputSize(), version:[inst.exports.getVersion(), inst.exports.getMinorVersion(), inst.exports.getPatchVersion()], wasm_sha256: crypto.createHash('sha256').update(code).digest('hex'), node: process.version}));
   const rl = readline.createInterface({input: process.stdin, crlfDelay: Infinity});
   for await (const line of rl) {
     if (!line.trim()) continue;
@@ -35,15 +39,25 @@ function fnv(str){ let h = 0xCBF29CE484222325n; for (let i=0;i<str.length;i++){ 
         if (expect < 0) throw new Error('NOSIG:' + k);
         if (expect !== arr.length) throw new Error('BADLEN:' + k + ':' + expect + ':' + arr.length);
         for (let i=0;i<arr.length;i++) {
-          let v = BigInt(arr[i]) % prime; if (v < 0n) v += prime;
+          let v = BigInt(arr[i]);
+          if (v < 0n || v >= prime) throw new Error('NONCANONICAL:' + k);
           for (let j=0;j<n32;j++) inst.exports.writeSharedRWMemory(j, Number((v >> BigInt(32*j)) & 0xFFFFFFFFn));
           inst.exports.setInputSignal(msb, lsb, i);
         }
       }
-      const n = mode === 'head' ? Math.min(wsize, req.head || 6) : wsize;
-      const w = [];
-      for (let i=0;i<n;i++) { inst.exports.getWitness(i); let v = 0n; for (let j=n32-1;j>=0;j--) v = (v << 32n) | BigInt(inst.exports.readSharedRWMemory(j) >>> 0); w.push(v.toString()); }
-      console.log(JSON.stringify({id: req.id, ok: true, witness: w}));
+      const hash = crypto.createHash('sha256');
+      const w = []; const head = [];
+      const buf = Buffer.alloc(4*n32);
+      for (let i=0;i<wsize;i++) {
+        inst.exports.getWitness(i);
+        let v = 0n;
+        for (let j=0;j<n32;j++) { const x = inst.exports.readSharedRWMemory(j) >>> 0; buf.writeUInt32LE(x, 4*j); }
+        hash.update(buf);
+        if (req.want === 'full' || i < 8) { for (let j=n32-1;j>=0;j--) v = (v << 32n) | BigInt(buf.readUInt32LE(4*j)); if (i < 8) head.push(v.toString()); if (req.want === 'full') w.push(v.toString()); }
+      }
+      const out = {id: req.id, ok: true, head, digest: hash.digest('hex')};
+      if (req.want === 'full') out.witness = w;
+      console.log(JSON.stringify(out));
     } catch (e) {
       console.log(JSON.stringify({id: req.id, ok: false, error: String(e.message).slice(0,300)}));
       // a trapped instance may be in an inconsistent state: re-instantiate
